@@ -489,6 +489,95 @@ func (e *Engine) registerDomain() {
 	r("opaque:context.Err", func(c *CallCtx) []Outcome { return c.ret(IfaceV{}) })
 	r("opaque:context.Value", func(c *CallCtx) []Outcome { return c.ret(IfaceV{}) })
 
+	// ------------------------------------------------------------ randomness (C06)
+	// math/rand is modelled as a deterministic, TRANSPARENT generator: the i-th output is an
+	// uninterpreted function of (seed, i), and any 11 consecutive outputs of two generators being
+	// equal implies equal seeds (the outputs of a 62-letter alphabet carry more bits than the
+	// seed; math/rand's state is recoverable from its outputs). crypto/rand yields fresh values.
+	r("math/rand.NewSource", func(c *CallCtx) []Outcome {
+		return c.ret(IfaceV{t: c.e.namedType("math/rand", "Source"), v: OpaqueV{kind: "randsource", data: c.args[0].(*Term)}})
+	})
+	r("math/rand.New", func(c *CallCtx) []Outcome {
+		src := c.args[0].(IfaceV)
+		seed := src.v.(OpaqueV).data.(*Term)
+		id := c.st.newObj(OpaqueV{kind: "mrand", data: &mrandState{seed: seed}})
+		var all []int
+		if v, ok := c.st.ghost["mrands"]; ok {
+			all = v.([]int)
+		}
+		c.st.ghost["mrands"] = append(append([]int(nil), all...), id)
+		return c.ret(Ptr{obj: id})
+	})
+	r("(*math/rand.Rand).Intn", func(c *CallCtx) []Outcome {
+		p := c.args[0].(Ptr)
+		if p.IsNil() {
+			return c.panicOut("nil-deref-rand")
+		}
+		ms := c.st.heap.objs[p.obj].(OpaqueV).data.(*mrandState)
+		n := c.args[1].(*Term)
+		idx := len(ms.outs)
+		out := UF("mrand_out", SInt, ms.seed, I(int64(idx)))
+		c.st.addDef(And(Le(I(0), out), Lt(out, n)))
+		nm := &mrandState{seed: ms.seed, outs: append(append([]*Term(nil), ms.outs...), out)}
+		c.st.heap.objs[p.obj] = OpaqueV{kind: "mrand", data: nm}
+		// transparency: a window of 11 equal outputs at the same positions reveals the seed
+		const w = 11
+		if idx+1 >= w {
+			for _, oid := range c.st.ghost["mrands"].([]int) {
+				if oid == p.obj {
+					continue
+				}
+				other := c.st.heap.objs[oid].(OpaqueV).data.(*mrandState)
+				if len(other.outs) <= idx || other.seed == ms.seed {
+					continue
+				}
+				var eqs []*Term
+				for k := idx + 1 - w; k <= idx; k++ {
+					eqs = append(eqs, Eq(nm.outs[k], other.outs[k]))
+				}
+				c.st.addDef(Implies(And(eqs...), Eq(ms.seed, other.seed)))
+			}
+		}
+		return c.ret(out)
+	})
+	r("crypto/rand.Int", func(c *CallCtx) []Outcome {
+		max := c.args[1].(Ptr)
+		mv := c.st.heap.objs[max.obj].(OpaqueV).data.(*Term)
+		v := FreshVar("crand", SInt)
+		c.st.addDef(And(Le(I(0), v), Lt(v, mv)))
+		return c.ret(TupleV{Ptr{obj: c.st.newObj(OpaqueV{kind: "bigint", data: v})}, IfaceV{}})
+	})
+	r("math/big.NewInt", func(c *CallCtx) []Outcome {
+		return c.ret(Ptr{obj: c.st.newObj(OpaqueV{kind: "bigint", data: c.args[0].(*Term)})})
+	})
+	r("(*math/big.Int).Int64", func(c *CallCtx) []Outcome {
+		p := c.args[0].(Ptr)
+		return c.ret(c.st.heap.objs[p.obj].(OpaqueV).data.(*Term))
+	})
+	r("crypto/rand.Read", func(c *CallCtx) []Outcome {
+		sl, ok := c.args[0].(SliceV)
+		if !ok {
+			unm("crypto/rand.Read into %T", c.args[0])
+		}
+		if sl.obj != 0 {
+			av := c.st.heap.objs[sl.obj].(*ArrayV)
+			nv := &ArrayV{e: append([]Value(nil), av.e...)}
+			for i := 0; i < sl.len; i++ {
+				b := FreshVar("crandb", SInt)
+				c.st.addDef(And(Le(I(0), b), Le(b, I(255))))
+				nv.e[sl.off+i] = b
+			}
+			c.st.heap.objs[sl.obj] = nv
+		}
+		return c.ret(TupleV{I(int64(sl.len)), IfaceV{}})
+	})
+	r("golang.org/x/oauth2.GenerateVerifier", func(c *CallCtx) []Outcome {
+		// 32 bytes from crypto/rand, base64url: a fresh secret value
+		s := c.st.newSymStr("verifier", 4)
+		c.st.addDef(Ge(sLen(s), I(1)))
+		return c.ret(s)
+	})
+
 	// ------------------------------------------------------------ go-redis result decoding
 	r("(*github.com/redis/go-redis/v9.SliceCmd).Scan", func(c *CallCtx) []Outcome { return c.e.redisScan(c) })
 
@@ -697,6 +786,11 @@ func (e *Engine) lookupToken(st *State, s *Str) []tokMatch {
 		}
 	}
 	return out
+}
+
+type mrandState struct {
+	seed *Term
+	outs []*Term
 }
 
 type jwsKeySetOpt struct {
